@@ -1,29 +1,31 @@
 import CollectionsC.Properties.C16Queue
+import CollectionsC.Properties.C14Queue
 import CollectionsC.Properties.C08Deque
 /-! # C08 (queue part) — a refused allocation is atomic, wrapped constructor included
 
 `cc_queue_new_conf` makes three allocator calls (queue header, then `cc_deque_new_conf`: deque header and
 buffer); a failure of the inner constructor is propagated and the outer header released (Q1).
-`cc_queue_enqueue` is `cc_deque_add_first`. -/
+`cc_queue_enqueue` is `cc_deque_add_first`.  Every refusal schedule, any number of failures. -/
 namespace CC.Properties.C08Queue
 open CC CC.Properties.C09Queue
 
-/-- **refused_iff** for `enqueue`: `CC_ERR_ALLOC` exactly when the ring is full and the allocator refuses
-(or the capacity limit is reached); otherwise `CC_OK` -/
+/-- **refused_iff** for `enqueue`: `CC_ERR_ALLOC` exactly when the ring is full and the allocator of the
+queue's triple refuses (or the capacity limit is reached); otherwise `CC_OK` -/
 theorem enqueue_refused_iff (q : Queue) (x : Nat) (m : Mem) (hi : q.Inv) :
     ((q.enqueue x m).1 = .errAlloc ↔
-      q.d.size = q.d.cap ∧ (q.d.cap = Gen.MAX_POW_TWO ∨ m.alloc.1 = false)) ∧
+      q.d.size = q.d.cap ∧ (q.d.cap = Gen.MAX_POW_TWO ∨ (m.allocT q.triple).1 = false)) ∧
     ((q.enqueue x m).1 = .ok ∨ (q.enqueue x m).1 = .errAlloc) := by
-  refine ⟨(C08Deque.refused_iff q.d m x 0 hi).2.1, ?_⟩
-  rcases Deque.addFirst_spec q.d x m hi with ⟨a1, _⟩ | ⟨a1, _⟩
+  refine ⟨by rw [← hi.2]; exact (C08Deque.refused_iff q.d m x 0 hi.1).2.1, ?_⟩
+  rcases Deque.addFirst_spec q.d x m hi.1 with ⟨a1, _⟩ | ⟨a1, _⟩
   · exact Or.inl a1
   · exact Or.inr a1
 
 /-- **atomic**: a refused `enqueue` leaves the queue physically unchanged, the ledger balanced, nothing
 faulted -/
 theorem enqueue_atomic (q : Queue) (x : Nat) (m : Mem) (hi : q.Inv) (h : (q.enqueue x m).1 ≠ .ok) :
-    (q.enqueue x m).2.1 = q ∧ Deque.memSame (q.enqueue x m).2.2 m := by
-  obtain ⟨a1, a2⟩ := (C08Deque.atomic q.d m x 0 hi).1 h
+    (q.enqueue x m).2.1 = q ∧ Deque.memSame q.triple (q.enqueue x m).2.2 m := by
+  obtain ⟨a1, a2⟩ := (C08Deque.atomic q.d m x 0 hi.1).1 h
+  rw [hi.2] at a2
   refine ⟨?_, a2⟩
   cases q
   simp only [Queue.enqueue] at a1 ⊢
@@ -31,28 +33,46 @@ theorem enqueue_atomic (q : Queue) (x : Nat) (m : Mem) (hi : q.Inv) (h : (q.enqu
 
 /-- **wrapped constructor**: any of the three requests refused ⇒ `CC_ERR_ALLOC`, no queue, and every
 block obtained so far released again (balanced ledger, no fault); otherwise a queue over an empty deque
-owning exactly three blocks -/
-theorem new_atomic (confCap : Nat) (m : Mem) :
-    ((Queue.new confCap m).1 ≠ .ok → (Queue.new confCap m).1 = .errAlloc ∧ (Queue.new confCap m).2.1 = none ∧
-      Deque.memSame (Queue.new confCap m).2.2 m) ∧
-    ((Queue.new confCap m).1 = .ok → ∃ q, (Queue.new confCap m).2.1 = some q ∧ q.Inv ∧ q.abs = [] ∧
-      (Queue.new confCap m).2.2.live = m.live + 3 ∧ (Queue.new confCap m).2.2.fault = m.fault) := by
-  rcases Queue.new_spec confCap m with ⟨n1, q, n2, n3, n4, _, n6, n7, _⟩ | ⟨n1, n2, n3⟩
-  · exact ⟨fun h => absurd n1 h, fun _ => ⟨q, n2, n3, n4, n6, n7⟩⟩
+owning exactly three more blocks on its triple -/
+theorem new_atomic (confCap : Nat) (t : Triple) (m : Mem) :
+    ((Queue.new confCap t m).1 ≠ .ok → (Queue.new confCap t m).1 = .errAlloc ∧ (Queue.new confCap t m).2.1 = none ∧
+      Deque.memSame t (Queue.new confCap t m).2.2 m) ∧
+    ((Queue.new confCap t m).1 = .ok → ∃ q, (Queue.new confCap t m).2.1 = some q ∧ q.Inv ∧ q.abs = [] ∧
+      Deque.memRel t 3 (Queue.new confCap t m).2.2 m) := by
+  rcases Queue.new_spec confCap t m with ⟨n1, q, n2, n3, n4, _, _, n7⟩ | ⟨n1, n2, n3⟩
+  · exact ⟨fun h => absurd n1 h, fun _ => ⟨q, n2, n3, n4, n7⟩⟩
   · exact ⟨fun _ => ⟨n1, n2, n3⟩, fun h => by rw [n1] at h; exact absurd h (by decide)⟩
 
-/-- **continue**: after a refused `enqueue` the rest of the interleaving behaves — once the allocator
-succeeds again — exactly like the ideal FIFO continued from the content before the failed call -/
-theorem continue_after_refusal (q : Queue) (f : Spec.QueueSpec.Fifo) (m : Mem) (x : Nat) (ops : List Op)
-    (h : Sim q f) (href : (q.enqueue x m).1 ≠ .ok) (hs : (q.enqueue x m).2.2.sched = [])
-    (hbound : f.items.length + ops.length ≤ Gen.MAX_POW_TWO) :
-    (runQ q m (.enqueue x :: ops)).1 = ⟨some (q.enqueue x m).1, none⟩ :: (runF f ops).1 ∧
-    Sim (runQ q m (.enqueue x :: ops)).2.1 (runF f ops).2 := by
+/-- **continue, every remaining schedule**: after a blocked `enqueue` the rest of the interleaving produces
+exactly the outputs and the final physical state it would have produced had the call never been made, on any
+ledger with the same remaining schedule — further refusals included -/
+theorem continue_after_refusal (q : Queue) (m m' : Mem) (x : Nat) (ops : List Op) (hi : q.Inv)
+    (href : (q.enqueue x m).1 ≠ .ok) (hs : (q.enqueue x m).2.2.sched = m'.sched) :
+    (runQ q m (.enqueue x :: ops)).1 = ⟨some (q.enqueue x m).1, none⟩ :: (runQ q m' ops).1 ∧
+    (runQ q m (.enqueue x :: ops)).2.1 = (runQ q m' ops).2.1 := by
+  obtain ⟨a1, _⟩ := enqueue_atomic q x m hi href
+  have hstep : (stepQ q m (.enqueue x)).2.1 = q := a1
+  obtain ⟨r1, r2⟩ := C14Queue.history_allocator_independent ops q (stepQ q m (.enqueue x)).2.2 m' hs
+  simp only [runQ]
+  rw [hstep]
+  exact ⟨by rw [r1]; rfl, r2⟩
+
+/-- … and against the ideal FIFO: the rest of the interleaving refines the FIFO continued from the content
+before the failed call (`C09Queue.history_refines_sched` from the unchanged state) -/
+theorem continue_refines (q : Queue) (f : Spec.QueueSpec.Fifo) (m : Mem) (x : Nat) (ops : List Op) (h : Sim q f)
+    (href : (q.enqueue x m).1 ≠ .ok) :
+    (runQ q m (.enqueue x :: ops)).1 =
+      ⟨some (q.enqueue x m).1, none⟩ :: (runB f (ops.zip (flags q (q.enqueue x m).2.2 ops))).1 ∧
+    Sim (runQ q m (.enqueue x :: ops)).2.1 (runB f (ops.zip (flags q (q.enqueue x m).2.2 ops))).2 := by
   obtain ⟨a1, _⟩ := enqueue_atomic q x m h.1 href
   have hstep : (stepQ q m (.enqueue x)).2.1 = q := a1
-  obtain ⟨r1, r2, _⟩ := history_refines ops (stepQ q m (.enqueue x)).2.1 f (stepQ q m (.enqueue x)).2.2
-    (by rw [hstep]; exact h) hs hbound
+  obtain ⟨r1, r2, _⟩ := history_refines_sched ops q f (q.enqueue x m).2.2 h
   simp only [runQ]
-  exact ⟨by rw [r1]; rfl, r2⟩
+  rw [hstep]
+  exact ⟨by rw [show (stepQ q m (.enqueue x)).2.2 = (q.enqueue x m).2.2 from rfl, r1]; rfl, r2⟩
+
+/-- non-vacuity: a full wrapped ring, first growth refused, second succeeds -/
+example : (runQ ⟨Deque.mk 2 2 1 1 [12, 11] .conf, .conf⟩ { sched := [true], live := 3 } [.enqueue 5, .enqueue 6, .poll]).1 =
+    [⟨some .errAlloc, none⟩, ⟨some .ok, none⟩, ⟨some .ok, some 12⟩] := by decide
 
 end CC.Properties.C08Queue
